@@ -33,6 +33,13 @@ def cases(prop, shard, nshards, seed, tier, want_models=False):
                 continue
             if mine():
                 yield {"family": "hostile-" + hops[0]["op"], "file": fn, "ops": hops}
+    # all models of an NMR ensemble in ONE Structure3D, an explicit model asked for (first, middle, last); also with
+    # the models numbered from 0, so that the requested number can be 0
+    for fn in ("tests/2HY9.cif", "tests/6RS3.cif"):
+        for base in (1, 0):
+            for m in ((1, 4, 10) if tier == "quick" else range(1, 11)):
+                if mine():
+                    yield {"family": "ensemble-in-one-structure", "file": fn, "first_model_number": base, "model": m - 1 + base, "ops": []}
     # crowded: the structure plus displaced copies (up to ~20 base centroids within 6 A, > 15 donor/acceptor atoms within 4 A)
     for fn in ("tests/1ATO.pdb", "tests/1A1T_1_B.cif", "tests/1DFU_1_M-N.cif"):
         for t in range(1 if tier == "quick" else 4):
@@ -146,6 +153,18 @@ def run_case(prop, case, rec, call):
             mon3d._cur["ctx"] = {"translated-copy": desc}
             n += call(s, None)
         rec.mark_nontrivial(True)
+        return
+    if fam == "ensemble-in-one-structure":
+        from rnapolis import tertiary
+
+        base = case["first_model_number"]
+        res = []
+        for m in range(1, 11):
+            res += list(gen3d.rebuild(gen3d.load(case["file"], m), model=m - 1 + base).residues)
+        s = tertiary.Structure3D(res)
+        mon3d._cur["ctx"] = {"file": case["file"], "all-models-in-one-structure": True, "models-numbered-from": base, "model": case["model"]}
+        n = call(s, case["model"])
+        rec.mark_nontrivial(n > 0)
         return
     model = case.get("model")
     s = gen3d.load(case["file"], model)
